@@ -5,6 +5,7 @@ import (
 	"context"
 	"fmt"
 	"sync"
+	"sync/atomic"
 
 	"github.com/ava-labs/avalanchego/ids"
 	"github.com/cockroachdb/pebble/vfs"
@@ -300,14 +301,123 @@ func c31(r *simk.Run) *simk.Violation {
 	if interesting {
 		r.Nontrivial()
 	}
+	// concurrent phase (a third of the runs, instead of the crash enumeration): clients query while the
+	// accepted-block notifications arrive; the seeded scheduler interleaves them at the indexer's lock
+	// and unlock points
+	concurrent := c.Bool(0.33)
+	nConc := 2 + c.Intn(7)
+	nReaders := 1 + c.Intn(2)
+	type q struct{ kind, back int }
+	var queries [][]q
+	for i := 0; i < nReaders; i++ {
+		var qs []q
+		for k := 0; k < 1+c.Intn(6); k++ {
+			qs = append(qs, q{kind: c.Weighted(5, 2, 2), back: c.Intn(4)})
+		}
+		queries = append(queries, qs)
+	}
 	var viol *simk.Violation
+	var violMu sync.Mutex
 	s.Run(r.T, func() {
 		fresh := func() {
 			c31FS.mu.Lock()
 			c31FS.fs = vfs.NewMem()
+			c31FS.writes, c31FS.crashBefore, c31FS.dead = 0, -1, false
 			c31FS.mu.Unlock()
 		}
 		fresh()
+		if concurrent {
+			r.Nontrivial()
+			idx, err := indexer.NewIndexer("/idx", e2.Parser, window)
+			if err != nil {
+				viol = &simk.Violation{Class: "C31/harness", Detail: err.Error()}
+				return
+			}
+			defer idx.Close()
+			first := uint64(c.Intn(3))
+			blocks := make([]*chain.ExecutedBlock, nConc)
+			for i := range blocks {
+				blocks[i] = c31Block(first+uint64(i), i%3)
+			}
+			// one block is in place before the clients start, so a latest block always exists
+			if err := idx.Notify(context.Background(), blocks[0]); err != nil {
+				viol = &simk.Violation{Class: "C31/harness", Detail: err.Error()}
+				return
+			}
+			var started, done atomic.Int64 // index of the newest block whose Notify has started / returned
+			fail := func(class, f string, a ...any) {
+				violMu.Lock()
+				if viol == nil {
+					viol = &simk.Violation{Class: "C31/" + class, Detail: fmt.Sprintf(f, a...)}
+				}
+				violMu.Unlock()
+			}
+			fin := make(chan struct{}, 1+nReaders)
+			s.Go("c31.notifier", 0, func() {
+				defer func() { fin <- struct{}{} }()
+				for i := 1; i < nConc; i++ {
+					started.Store(int64(i))
+					if err := idx.Notify(context.Background(), blocks[i]); err != nil {
+						fail("harness", "Notify: %v", err)
+						return
+					}
+					done.Store(int64(i))
+				}
+			})
+			for ri := range queries {
+				qs := queries[ri]
+				s.Go("c31.reader", uint64(ri), func() {
+					defer func() { fin <- struct{}{} }()
+					for _, qu := range qs {
+						a := done.Load()
+						switch qu.kind {
+						case 0: // the latest block: some block that was the latest during the call
+							got, err := idx.GetLatestBlock()
+							b := started.Load()
+							if err != nil {
+								fail("latest-block-missing", "GetLatestBlock failed (%v) although block %d had been delivered before the call (deliveries %d..%d ran during the call, window %d)", err, first+uint64(a), first+uint64(a)+1, first+uint64(b), window)
+								return
+							}
+							if h := got.Block.GetHeight(); h < first+uint64(a) || h > first+uint64(b) {
+								fail("latest-block-stale", "GetLatestBlock returned height %d; the latest delivered block was %d before and at most %d after the call", h, first+uint64(a), first+uint64(b))
+								return
+							}
+						default: // a block by height or id: present unless a delivery that ran during the call may have evicted it
+							i := int(a) - qu.back
+							if i < 0 {
+								continue
+							}
+							var got *chain.ExecutedBlock
+							var err error
+							if qu.kind == 1 {
+								got, err = idx.GetBlockByHeight(first + uint64(i))
+							} else {
+								got, err = idx.GetBlock(blocks[i].Block.GetID())
+							}
+							b := started.Load()
+							inAtCall := uint64(i)+window > uint64(a)
+							mustBeIn := uint64(i)+window > uint64(b)
+							if err != nil && inAtCall && mustBeIn {
+								fail("window-block-missing", "lookup of block %d failed (%v) although it was within the window for every delivery up to %d (window %d)", first+uint64(i), err, first+uint64(b), window)
+								return
+							}
+							if err == nil && got.Block.GetID() != blocks[i].Block.GetID() {
+								fail("wrong-block", "lookup of block %d returned block %d", first+uint64(i), got.Block.GetHeight())
+								return
+							}
+							if err == nil && !inAtCall {
+								fail("stale-block-served", "lookup of block %d succeeded although it had left the window (latest delivered %d, window %d) before the call", first+uint64(i), first+uint64(a), window)
+								return
+							}
+						}
+					}
+				})
+			}
+			for k := 0; k < 1+nReaders; k++ {
+				<-fin
+			}
+			return
+		}
 		m := &c31Model{blocks: map[uint64]*chain.ExecutedBlock{}}
 		known := map[uint64]*chain.ExecutedBlock{}
 		v, _, _ := c31Run(ops, window, -1, m, known, 0)
